@@ -367,6 +367,7 @@ def analyse(tier, seed, config, cases, counts, crashes, model_ans, count_ans, pr
     n_monitor_cases = n_disagree = 0
     dist_kind_len = collections.Counter()
     dist_phase_age = collections.Counter()
+    dist_kind_phase = collections.Counter()
     dist_place_sched = collections.Counter()
     dist_reached = collections.Counter()
     dist_outcome = collections.Counter()
@@ -383,6 +384,7 @@ def analyse(tier, seed, config, cases, counts, crashes, model_ans, count_ans, pr
             maxlen = max(maxlen, L)
             dist_kind_len[f"{kind}/len{L if L < 5 else '5+'}"] += 1
             dist_phase_age[f"{w[5]}/{w[6]}"] += 1
+            dist_kind_phase[f"{kind}/{w[5]}"] += 1
             dist_place_sched[f"{w[3]}/{w[4]}"] += 1
             a = c.answer or ""
             dist_outcome[a.split(" ")[0] + ("" if not a.startswith("ok") else (" kept" if " keeps=1" in a else " not-kept"))] += 1
@@ -492,6 +494,7 @@ def analyse(tier, seed, config, cases, counts, crashes, model_ans, count_ans, pr
         "conv_C19": dict(
             config=config, tier=tier, seed=seed, repo=_repo(), cases=len(cases), max_chain_length=maxlen,
             kinds_x_chain_lengths=dict(sorted(dist_kind_len.items())),
+            kinds_x_phases=dict(sorted(dist_kind_phase.items())),
             phase_x_age=dict(sorted(dist_phase_age.items())),
             placement_x_schedule=dict(sorted(dist_place_sched.items())),
             phase_requested_to_reached=dict(sorted(dist_reached.items())),
